@@ -240,8 +240,149 @@ fn threads(em: &mut Emit, rng: &mut Rng, nthreads: usize, per_thread: usize, rou
     }
 }
 
+// ------------------------------------------------------------------ heap model correspondence
+
+#[derive(Clone)]
+enum HX {
+    Int(i64),
+    Var(usize),
+    List(Vec<i64>),
+    Str(String),
+    Add(Box<HX>, Box<HX>),
+}
+
+fn hx_src(e: &HX) -> String {
+    match e {
+        HX::Int(z) => crate::gen::lit_i(*z),
+        HX::Var(i) => format!("h{}", i),
+        HX::List(l) => format!("[{}]", l.iter().map(|z| crate::gen::lit_i(*z)).collect::<Vec<_>>().join(", ")),
+        HX::Str(s) => format!("'{}'", s),
+        HX::Add(a, b) => format!("({} + {})", hx_src(a), hx_src(b)),
+    }
+}
+fn hx_wire(e: &HX) -> String {
+    match e {
+        HX::Int(z) => format!("(xint {})", z),
+        HX::Var(i) => format!("(xvar {})", i),
+        HX::List(l) => format!("(xlist{})", l.iter().map(|z| format!(" {}", z)).collect::<String>()),
+        HX::Str(s) => {
+            let mut o = String::from("(xstr");
+            str_cps(s, &mut o);
+            o.push(')');
+            o
+        }
+        HX::Add(a, b) => format!("(xadd {} {})", hx_wire(a), hx_wire(b)),
+    }
+}
+/// kind: 0 list, 1 string, 2 int; mostly kind-consistent so that most programs succeed
+fn hx_gen(rng: &mut Rng, depth: u32, nvars: usize, kind: u64) -> HX {
+    let kind = if rng.chance(1, 12) { rng.below(3) } else { kind };
+    if depth == 0 || rng.chance(1, 4) {
+        if rng.chance(1, 40) {
+            return HX::Var(nvars); // undeclared
+        }
+        return match kind {
+            0 => match rng.below(5) {
+                0 | 1 => HX::Var(*rng.pick(&[0usize, 1, 5])),
+                2 => HX::List(vec![]),
+                _ => HX::List((0..1 + rng.below(3)).map(|_| rng.range(-2, 9)).collect()),
+            },
+            1 => match rng.below(4) {
+                0 | 1 => HX::Var(*rng.pick(&[2usize, 3])),
+                _ => HX::Str(rng.pick(&["", "a", "bc", "é"]).to_string()),
+            },
+            _ => {
+                if rng.chance(1, 3) {
+                    HX::Var(4)
+                } else {
+                    HX::Int(rng.range(-3, 9))
+                }
+            }
+        };
+    }
+    HX::Add(Box::new(hx_gen(rng, depth - 1, nvars, kind)), Box::new(hx_gen(rng, depth - 1, nvars, kind)))
+}
+
+/// Programs of the heap model's fragment over buffers the context holds: besides the value, the
+/// implementation reports which context buffer (if any) the result IS (pointer equality) and
+/// how many owners every context buffer has while the result is held - the model predicts both.
+fn heap_cases(em: &mut Emit, rng: &mut Rng, n: u64) {
+    let env: Vec<Value> = vec![
+        Value::List(Arc::new(vec![Value::Int(1), Value::Int(2), Value::Int(3)])),
+        Value::List(Arc::new(vec![])),
+        Value::String(Arc::new("ab".to_string())),
+        Value::String(Arc::new(String::new())),
+        Value::Int(7),
+        Value::List(Arc::new(vec![Value::Int(-1)])),
+    ];
+    let mut envw = String::from("(env");
+    for v in &env {
+        envw.push(' ');
+        match v {
+            Value::List(l) => {
+                envw.push_str("(list");
+                for x in l.iter() {
+                    if let Value::Int(z) = x {
+                        envw.push_str(&format!(" {}", z));
+                    }
+                }
+                envw.push(')');
+            }
+            Value::String(t) => envw.push_str(&sx_str(t)),
+            Value::Int(z) => envw.push_str(&format!("(int {})", z)),
+            _ => unreachable!(),
+        }
+    }
+    envw.push(')');
+    let mut ctx = Context::default();
+    for (i, v) in env.iter().enumerate() {
+        ctx.add_variable_from_value(format!("h{}", i), v.clone());
+    }
+    // the harness's own clones in `env` are one extra owner of every buffer
+    let owners = |v: &Value| -> i64 {
+        match v {
+            Value::List(a) => Arc::strong_count(a) as i64 - 1,
+            Value::String(a) => Arc::strong_count(a) as i64 - 1,
+            _ => -1,
+        }
+    };
+    for _ in 0..n {
+        let depth = 1 + rng.below(4) as u32;
+        let kind = rng.below(3);
+        let e = hx_gen(rng, depth, env.len(), kind);
+        let src = hx_src(&e);
+        let ctxr = &ctx;
+        let envr = &env;
+        let s2 = src.clone();
+        let imp = guarded(std::panic::AssertUnwindSafe(move || {
+            let p = match Program::compile(&s2) {
+                Ok(p) => p,
+                Err(_) => return "(reject)".to_string(),
+            };
+            let r = p.execute(ctxr);
+            let alias: i64 = match &r {
+                Ok(Value::List(a)) => envr.iter().position(|v| matches!(v, Value::List(b) if Arc::ptr_eq(a, b))).map(|i| i as i64).unwrap_or(-1),
+                Ok(Value::String(a)) => envr.iter().position(|v| matches!(v, Value::String(b) if Arc::ptr_eq(a, b))).map(|i| i as i64).unwrap_or(-1),
+                _ => -1,
+            };
+            let out = match &r {
+                Ok(v) => format!("(ok {})", sx_value(v)),
+                Err(cel_interpreter::ExecutionError::UndeclaredReference(_)) => "(err (undeclared))".to_string(),
+                Err(e) => format!("(err {})", sx_err(e)),
+            };
+            // an error value keeps the operands it reports alive; it is not a result: drop it first
+            let r = r.ok();
+            let counts: Vec<String> = envr.iter().map(|v| owners(v).to_string()).collect();
+            drop(r);
+            format!("(heap {} (alias {}) (owners {}))", out, alias, counts.join(" "))
+        }));
+        em.case(&format!("(heap {} {})", envw, hx_wire(&e)), &imp, "nt=1;kind=heap", &src);
+    }
+}
+
 pub fn run(em: &mut Emit, thorough: bool, seed: u64) {
     let mut rng = Rng::new(seed ^ 0xC05);
+    heap_cases(em, &mut rng, if thorough { 60_000 } else { 4_000 });
     let nh = if thorough { 3000 } else { 120 };
     for h in 0..nh {
         let steps = 1 + rng.below(50) as usize;
